@@ -106,6 +106,8 @@ pub struct Gen {
     /// Extra weight for saveload / clone (twin monitors).
     pub boost_save: u32,
     pub boost_clone: u32,
+    /// Ops emitted first (directed prelude), while they are legal.
+    pub prelude: std::collections::VecDeque<Op>,
 }
 
 // no 'Δ': v_print() uses it as the data marker, a label Δ would make its output ambiguous
@@ -193,6 +195,7 @@ impl Gen {
             drawn: 0,
             boost_save: 0,
             boost_clone: 0,
+            prelude: std::collections::VecDeque::new(),
         }
     }
 
@@ -506,8 +509,37 @@ impl Gen {
         r.map(|(cmds, text)| Op::Script { text, cmds, fault_at: None })
     }
 
+    /// Directed prelude: k two-vertex groups alive at once (k up to 14), some holding unread data,
+    /// so that copies are taken of graphs that use the last group slots.
+    pub fn many_groups_prelude(&mut self, cap: usize) {
+        let k = self.rng.range(12, 14).min(cap / 2);
+        if k < 2 {
+            return;
+        }
+        let l = self.label();
+        for i in 0..k {
+            let (a, b) = (2 * i, 2 * i + 1);
+            self.prelude.push_back(Op::Add(a));
+            self.prelude.push_back(Op::Add(b));
+            self.prelude.push_back(Op::Bind(a, b, l));
+            match self.rng.below(3) {
+                0 => {}
+                1 => self.prelude.push_back(Op::Put(b, gen_data(&mut self.rng, true))),
+                _ => {
+                    self.prelude.push_back(Op::Put(a, gen_data(&mut self.rng, true)));
+                    self.prelude.push_back(Op::Put(b, gen_data(&mut self.rng, true)));
+                }
+            }
+        }
+    }
+
     /// Draw the next legal op.
     pub fn next_op(&mut self, m: &Model) -> Op {
+        while let Some(op) = self.prelude.pop_front() {
+            if m.legal(&op) {
+                return op;
+            }
+        }
         let pop = m.verts.len();
         let mut w = self.w;
         // population control
